@@ -99,6 +99,12 @@ class Tr:
             a, m, c = e.left, e.comparators[0], e.comparators[1]
             return (f"(({self.z(a, env)} {CMPOPS[type(e.ops[0])]} {self.z(m, env)}) && "
                     f"({self.z(m, env)} {CMPOPS[type(e.ops[1])]} {self.z(c, env)}))")
+        if isinstance(e, ast.Compare) and len(e.ops) == 1 and isinstance(e.ops[0], (ast.In, ast.NotIn)) \
+                and isinstance(e.comparators[0], (ast.Tuple, ast.List, ast.Set)) and e.comparators[0].elts:
+            # x in (a, b, c)  ->  (x =? a) || (x =? b) || (x =? c)
+            x = self.z(e.left, env)
+            alts = " || ".join(f"({x} =? {self.z(a, env)})" for a in e.comparators[0].elts)
+            return f"({alts})" if isinstance(e.ops[0], ast.In) else f"(negb ({alts}))"
         if isinstance(e, ast.BoolOp):
             op = " && " if isinstance(e.op, ast.And) else " || "
             return "(" + op.join(self.b(v, env) for v in e.values) + ")"
